@@ -43,4 +43,6 @@ Inv03 == Known(pol, el) => I03(pol, el, Res)
 Inv10 == Known(pol, el) => I10(pol, el, Res)
 Inv11 == Known(pol, el) => I11(pol, el, Res)
 Inv12 == Known(pol, el) => I12(pol, el, Res)
+Inv07 == Known(pol, el) => I07attrs(pol, el, as, Res) /\ AnyOf(pol, el, as)
+Inv20 == Known(pol, el) => I20attrs(pol, el, Res)
 =============================================================================
